@@ -47,7 +47,13 @@ def _key(rng, n):
     if kind == 2:  # ndarray (possibly empty)
         m = int(rng.integers(0, 6)) if n else 0
         idx = rng.integers(0, max(n, 1), size=m) if n else np.zeros(0, dtype=int)
-        return idx.astype([np.int64, np.int32, np.intp][int(rng.integers(3))]), idx
+        key = idx.astype([np.int64, np.int32, np.intp][int(rng.integers(3))])
+        if m and rng.random() < 0.3:
+            big = np.zeros(2 * m, dtype=key.dtype); big[::2] = key
+            key = big[::2]                      # index array that is a strided view (a column of a DOF table)
+            if rng.random() < 0.5:
+                key.flags.writeable = False
+        return key, idx
     if kind == 3:  # range
         a = int(rng.integers(0, n + 1)); b = int(rng.integers(a, n + 1))
         step = int(rng.integers(1, 4))
@@ -90,7 +96,16 @@ def _value(rng, shape, CooMatrix, wrong=False):
     if rng.random() < 0.4:
         A[rng.random(size=vshape) < 0.5] = 0.0
     if kind == "dense2d":
-        v = A if rng.random() < 0.7 else np.asfortranarray(A)
+        u_ = rng.random()
+        if u_ < 0.5:
+            v = A
+        elif u_ < 0.65:
+            v = np.asfortranarray(A)
+        else:
+            # other legitimate layouts of the same values: strided view, negative strides, transposed view, read-only
+            from vlib.oracles import rep_variants
+            alts = rep_variants(A) + [("transposed_view", np.ascontiguousarray(A.T).T)]
+            v = alts[int(rng.integers(len(alts)))][1]
     elif kind == "int2d":
         A = np.round(A).astype(np.int64).astype(float)
         v = A.astype(np.int64)
